@@ -650,7 +650,7 @@ class Impl:
             return out
         if name == 'add_expr':
             return self._h(m, a.add_expr(' '.join(args[0])))
-        if name == 'add_expr_text':
+        if name in ('add_expr_text', 'add_expr_lr'):
             return self._h(m, a.add_expr(str(args[0])))
         if name == 'to_expr':
             return a.to_expr(F(args[0]))
@@ -959,6 +959,9 @@ class Impl:
         return b.add_expr(' '.join(spellings))
 
     def op_add_expr_text(self, b, text):
+        return b.add_expr(str(text))
+
+    def op_add_expr_lr(self, b, text):
         return b.add_expr(str(text))
 
     def op_to_expr(self, b, u):
